@@ -418,6 +418,30 @@ def _():
     return G.emit_strings('p_expire', rows, 'expiry dataflow (pinned shape)')
 
 
+@item('p_kmeans')
+def _():
+    """k-means dataflow (pinned shape): loop body of kmeans(), the four writes of init_embed_ and the valid-token selection"""
+    rows = []
+    f = find_func(VQ, 'kmeans')
+    loop = [n for n in f.body if isinstance(n, ast.For)]
+    if len(loop) != 1:
+        raise GenError('kmeans: expected one loop')
+    rows.append('kmeans.init:' + ast.unparse(assigned_expr(VQ, 'kmeans', 'means', 0)))
+    rows.append('kmeans.loop:' + ast.unparse(loop[0].iter))
+    for s in loop[0].body:
+        rows.append('kmeans.body:' + ast.unparse(s).replace('\n', ' '))
+    rows.append('kmeans.return:' + ast.unparse(return_expr(VQ, 'kmeans')))
+    bb = find_func(VQ, 'batched_bincount')
+    rows += ['bincount:' + ast.unparse(s) for s in bb.body]
+    for cls in ('EuclideanCodebook', 'CosineSimCodebook'):
+        g = find_func(VQ, f'{cls}.init_embed_')
+        rows += [f'{cls}.init:' + ast.unparse(s).replace('\n', ' ') for s in g.body]
+        rows.append(f'{cls}.initted_buffer:' + [ast.unparse(n) for n in ast.walk(find_func(VQ, f'{cls}.__init__'))
+                                                if isinstance(n, ast.Call) and G.call_name(n) == 'self.register_buffer' and n.args[0].value == 'initted'][0])
+        rows.append(f'{cls}.call:' + [ast.unparse(n) for n in ast.walk(find_func(VQ, f'{cls}.forward')) if isinstance(n, ast.Call) and G.call_name(n) == 'self.init_embed_'][0])
+    return G.emit_strings('p_kmeans', rows, 'k-means dataflow (pinned shape)')
+
+
 # =============================================================================== inventories (G4)
 for fname, cls, tag in ((VQ, 'EuclideanCodebook', 'euclid'), (VQ, 'CosineSimCodebook', 'cosine'), (VQ, 'VectorQuantize', 'vq'),
                         (FSQF, 'FSQ', 'fsq'), (LFQF, 'LFQ', 'lfq'), (SIMVQ, 'SimVQ', 'simvq'), (RPQ, 'RandomProjectionQuantizer', 'rpq'),
